@@ -15,6 +15,7 @@ func vInt(n int64) *sx.Sexp     { return sx.L(sx.A("int"), sx.I(n)) }
 func vStr(s string) *sx.Sexp    { return sx.L(sx.A("str"), sx.S(s)) }
 func vBool(b bool) *sx.Sexp     { return sx.L(sx.A("bool"), sx.Bool(b)) }
 func vFloat(f float64) *sx.Sexp { return sx.L(sx.A("float"), sx.U(math.Float64bits(f))) }
+func vUint(n uint64) *sx.Sexp   { return sx.L(sx.A("uint"), sx.U(n)) }
 func vNil() *sx.Sexp            { return sx.L(sx.A("invalid")) }
 func vFunc(id string) *sx.Sexp  { return sx.L(sx.A("func"), sx.A(id)) }
 func vJFunc(id string) *sx.Sexp { return sx.L(sx.A("jfunc"), sx.A(id)) }
@@ -131,6 +132,8 @@ func newProg(r *h.Rand) *prog {
 		bind("z", vInt(0)),
 		bind("bi", vInt(9007199254740993)),
 		bind("bj", vInt(9007199254740992)),
+		bind("bu", vUint(9223372036854775808)),
+		bind("bv", vUint(18446744073709551615)),
 		bind("f", vFloat([]float64{1.5, 0, 2, -0.25, 100}[r.Intn(5)])),
 		bind("s", vStr(r.Pick(specialStrings))),
 		bind("e", vStr("")),
@@ -178,7 +181,7 @@ func (g *pgen) intExpr(d int) string {
 	r := g.r
 	if g.errPct > 0 && r.Chance(g.errPct) {
 		g.tag("planted-error")
-		return r.Pick([]string{"nope", "i / z", "l[99]", "st.Missing", "np.A", "i % z", "s - 1", "li[-1]", "m[n]", "st[n]", "i % 0.5", "j % f", "i / \"0\"", "i % t", "f % 0.25", "i / t"})
+		return r.Pick([]string{"nope", "i / z", "l[99]", "st.Missing", "np.A", "i % z", "s - 1", "li[-1]", "m[n]", "st[n]", "li[bu]", "l[bv]", "ls[bv - 1]", "i % 0.5", "j % f", "i / \"0\"", "i % t", "f % 0.25", "i / t"})
 	}
 	if d <= 0 {
 		return r.Pick([]string{"i", "j", "z", "1", "2", "0", "i", "st.A", "len(l)", "li[0]", "pt.A", "bi", "bj", "i", "j"})
